@@ -89,6 +89,9 @@ def leaf(tid, kind):
         v = ((base % 1000) * 0.5 + tid).astype("f4")
         a = np.stack([v, v + 1.0, v * 0.25 + 2.0], axis=-1).astype("f2")
         a[und] = np.nan
+        # pixels with NaN in one channel only: such a pixel is undefined as a whole (none of its channels counts)
+        a[170:174, 40:60, 1] = np.nan
+        a[(yy % 32 == 9) & (xx % 16 == 7), 2] = np.nan
     elif ch == 0:
         top = 255 if dt == "u1" else 32767  # up to the type's maximum (a sum of four must not wrap)
         a = ((base * 7 + tid * 31) % top + 1).astype(dt)
@@ -151,6 +154,10 @@ def expected_tree(leaves, start, kind):
     for pos, a in leaves.items():
         if ch == 3 and dt == "u1":
             conv[pos] = np.concatenate([a, np.full(a.shape[:2] + (1,), 255, "u1")], axis=2)
+        elif ch == 3 and dt == "f2":
+            b = a.copy()
+            b[np.isnan(b).any(axis=2)] = np.nan
+            conv[pos] = b
         else:
             conv[pos] = a
     return rm.cascade(conv, start, np.dtype(dt), (3 if dt == "f2" else 4) if ch in (3, 4) else 0)
